@@ -2,6 +2,7 @@
 from ..core import (origin_of_operand, AnchorMissing, guard_regions, lock_wrappers, comparisons, rel_str, mirror,
                     const_eval, feasible_reach, REL)
 from .common import *
+from ..core import result_fate
 from ..core import _rvalue_operands, rvalue_places
 
 FS_MUTATORS = ["std::fs::rename", "std::fs::remove_file", "std::fs::remove_dir_all", "std::fs::File::set_len",
@@ -299,6 +300,51 @@ def rule_wal_open_floor(cx):
         cx.check(ok, "`%s`: the WAL is opened with floor = manifest.log_number" % owner, "wal-open-floor|%s" % owner, c.where(),
                  "`%s` opens the store's WAL with a floor that is not the manifest's log_number: commits can be appended to a segment "
                  "number the next recovery skips" % owner)
+
+
+def rule_rotation_seals_segment(cx):
+    """Recovery repairs a damaged segment and then replays the segments after it; that is prefix-consistent only if a
+    non-final segment can never be torn by a crash, i.e. rotation makes the outgoing segment durable (flush + fsync)
+    before the next segment exists, and the new segment's directory entry is durable before rotation reports success."""
+    f = cx.f
+    b = f.body("Wal::rotate")
+    SYNC = {"std::fs::File::sync_all", "std::fs::File::sync_data"}
+    sy = [c for c in b.calls if c.bb in b.live and f.call_may_reach(c, SYNC) and not f.call_may_reach(c, {"Wal::create_writer", "std::fs::OpenOptions::open"})
+          and "active_writer" in origin_of_operand(b, c.args[0]).field_names()] if True else []
+    cw = sites(cx, b, "Wal::create_writer")
+    cx.check(bool(sy), "rotate syncs the outgoing writer", "rotate-no-sync", b.where(),
+             "Wal::rotate no longer fsyncs the outgoing segment: after a power loss a non-final segment can be torn, repair truncates it and the later "
+             "segments are still replayed -> later transactions without earlier ones")
+    if sy:
+        dom(cx, b, sy, cw, "rotate: outgoing segment is fsynced before the next one is created", key="rotate-sync-order")
+        # the sync result is propagated (a failed fsync aborts the rotation)
+        for c in sy:
+            fate = result_fate(b, c)
+            cx.check(fate in ("propagated", "handled"), "rotate: a failed fsync of the outgoing segment aborts the rotation (%s)" % fate, "rotate-sync-error-dropped", c.where())
+    ds = [c for c in b.calls if c.bb in b.live and c.names & {"lsm::fsync_directory", "fsync_directory"}]
+    oks = [x for x, k in exits(b) if k in ("ok", "tail")]
+    for c in cw:
+        mpt(cx, b, [c], ds, "rotate: directory fsynced after the new segment is created, before Ok", to=oks, key="rotate-dir-sync")
+    # BufferedFileWriter::sync: the dirty flag is only cleared after flush + fsync
+    for sb in f.bodies_like("WritableFile::sync") or []:
+        pass
+    cands = [x for x in f.scan_bodies() if x.name == "sync" and x.impl_trait and x.impl_trait.endswith("WritableFile")]
+    cx.floor("WritableFile::sync implementations", len(cands), 1)
+    for sb in cands:
+        fs_ = [c for c in sb.calls if c.bb in sb.live and c.names & SYNC]
+        cx.check(bool(fs_), "`%s` reaches fsync" % sb.id, "writable-sync-no-fsync|%s" % sb.id, sb.where(), "`%s` no longer calls sync_all/sync_data" % sb.id)
+        clears = [i for i, j, lhs, rv, line in sb.assigns() if i in sb.live and any(isinstance(p, list) and p[0] == "f" and p[2] == "pending_sync" for p in lhs[1:])]
+        for i in clears:
+            cx.check(sb.set_dominates({c.bb for c in fs_}, i), "`%s`: pending_sync is cleared only after the fsync" % sb.id, "pending-cleared-before-fsync|%s" % sb.id, sb.where(i))
+        # skipping the fsync is only allowed on the `nothing pending` edge
+        for x in [x for x, k in exits(sb) if k in ("ok", "tail")]:
+            r = sb.reachable_from([0], avoid={c.bb for c in fs_})
+            if x in r:
+                from ..core import bool_edges as _be
+                # the early exit must be control dependent on reading pending_sync
+                reads = [i for i, j, lhs, rv, line in sb.assigns() if i in sb.live and any(isinstance(p, list) and p[0] == "f" and p[2] == "pending_sync" for pl in rvalue_places(rv) for p in pl[1:])]
+                cx.check(bool(reads) and all(sb.set_dominates(reads, x) for _ in [0]), "`%s`: the fsync is skipped only after testing pending_sync" % sb.id,
+                         "fsync-skipped-unconditionally|%s" % sb.id, sb.where(x))
 
 
 def rule_append_after_validated_tail(cx):
